@@ -34,7 +34,31 @@ def find_cc(c, name):
     raise KeyError(name)
 
 
-def make_ctrl(mk, n, nlevels=1, conv=None, cparams=None, level_params=None, sweeper=None, M=1):
+# number of levels of the harness steps when a contract does not say (set per instance by _Base.build_with_levels)
+_LEVELS = [1]
+COARSE_NUMERIC_STATUS = ('residual', 'dt_new', 'error_embedded_estimate', 'error_extrapolation_estimate', 'increment', 'error_extrapolation_estimate')
+
+
+def decorate_coarse_levels(c, mk):
+    """step-size control and restarts are decided on the FINEST level: every coarser level carries arbitrary OTHER values (own step size,
+    residual, tolerances, error estimates, proposed step size), so that reading the wrong level cannot go unnoticed"""
+    for p, S in enumerate(c.MS):
+        for l, L in enumerate(S.levels[1:], start=1):
+            n = f'S{p}.coarse{l}'
+            L.params.dt = mk.real(f'{n}.dt')
+            mk.assume(L.params.dt > 0, 'dt>0')
+            L.params.restol = mk.real(f'{n}.restol')
+            if L.params.get('e_tol') is not None:
+                L.params.e_tol = mk.real(f'{n}.e_tol')
+            for k in COARSE_NUMERIC_STATUS:
+                if k in vars(L.status) or k in type(L.status).attrs:
+                    setattr(L.status, k, mk.real(f'{n}.{k}'))
+            L.status.sweep = mk.int(f'{n}.sweep')
+
+
+def make_ctrl(mk, n, nlevels=None, conv=None, cparams=None, level_params=None, sweeper=None, M=1):
+    decorate = nlevels is None and _LEVELS[0] > 1
+    nlevels = _LEVELS[0] if nlevels is None else nlevels
     lp = dict(restol=-1.0)
     lp.update(level_params or {})
     kw = dict(sweeper=sweeper) if sweeper else {}
@@ -47,12 +71,35 @@ def make_ctrl(mk, n, nlevels=1, conv=None, cparams=None, level_params=None, swee
         S.prev = c.MS[p - 1]
         for L in S.levels:
             L.status.time = 0.0
+    if decorate:
+        decorate_coarse_levels(c, mk)
     return c, trace
 
 
 class _Base(Contract):
     prop = 'C09'
     label = 'instance-proved'
+    coarse_levels = True  # every instance is also run on two-level steps whose coarse level holds arbitrary other values
+
+    def all_instances(self, tier):
+        out = list(self.instances(tier))
+        if self.coarse_levels:
+            out += [dict(i, nlevels=2) for i in out if 'nlevels' not in i]
+        return out
+
+    def __init_subclass__(cls, **kw):
+        super().__init_subclass__(**kw)
+        if 'build' in cls.__dict__:
+            inner = cls.__dict__['build']
+
+            def build(self, inst, mk, _inner=inner):
+                _LEVELS[0] = inst.get('nlevels', 1) if self.coarse_levels else 1
+                try:
+                    return _inner(self, inst, mk)
+                finally:
+                    _LEVELS[0] = 1
+
+            cls.build = build
 
     def Ns(self, tier):
         return (1, 2, 3) if tier == 'quick' else (1, 2, 3, 4)
@@ -442,7 +489,7 @@ class SlopeLimiter(_Base):
         mk.assume(L.params.dt > 0, 'dt>0')
         L.status.dt_new = None if inst['none'] else mk.real('dt_new')
         S.status.restart = mk.bool('restart')
-        st = State(c=c, C=C, S=S, L=L, old=L.status.dt_new, inst=inst)
+        st = State(c=c, C=C, S=S, L=L, old=L.status.dt_new, inst=inst, old_coarse=[Lv.status.dt_new for Lv in S.levels[1:]])
         st.call = lambda: C.get_new_step_size(c, S)
         return st
 
@@ -454,16 +501,20 @@ class SlopeLimiter(_Base):
         yield 'returns_normally', exc is None
         if exc is not None:
             return
-        if st.old is None:
-            yield 'none_stays_none', L.status.dt_new is None
-        else:
-            dt, q = L.params.dt, st.old / L.params.dt
+        for l, Lv in enumerate(S.levels):
+            tag = '' if l == 0 else f'[level {l}]'
+            was = st.old if l == 0 else st.old_coarse[l - 1]
+            if was is None:
+                yield f'none_stays_none{tag}', Lv.status.dt_new is None
+                continue
+            # every level's proposal is limited against THAT level's own step size
+            dt, q = Lv.params.dt, was / Lv.params.dt
             below, above = q < C.params.dt_slope_min, q > C.params.dt_slope_max
             dead = And(Not(below), Not(above), abs(q - 1) < C.params.dt_rel_min_slope, Not(S.status.restart))
-            exp = Ite(below, dt * C.params.dt_slope_min, Ite(above, dt * C.params.dt_slope_max, Ite(dead, dt, st.old)))
-            yield 'slope_clip_with_dead_band', seq(L.status.dt_new, exp)
-            yield 'rejected_step_never_keeps_its_step_size_through_the_dead_band', Implies(And(S.status.restart, Not(below), Not(above)), seq(L.status.dt_new, st.old))
-        yield from frame_clauses(old, snapshot({'S': S}), frame=['S.levels[0].status.dt_new'])
+            exp = Ite(below, dt * C.params.dt_slope_min, Ite(above, dt * C.params.dt_slope_max, Ite(dead, dt, was)))
+            yield f'slope_clip_with_dead_band{tag}', seq(Lv.status.dt_new, exp)
+            yield f'rejected_step_never_keeps_its_step_size_through_the_dead_band{tag}', Implies(And(S.status.restart, Not(below), Not(above)), seq(Lv.status.dt_new, was))
+        yield from frame_clauses(old, snapshot({'S': S}), frame=[f'S.levels[{l}].status.dt_new' for l in range(len(S.levels))])
 
     def canary(self, st, old, result, exc):
         if st.old is not None:
